@@ -446,12 +446,13 @@ async def sorted(
     """
     if key is None:
         # TODO: is this a worthwhile optimisation?
-        try:
-            return _sync_builtins.sorted(iterable, reverse=reverse)  # type: ignore
-        except TypeError:
-            items: _sync_builtins.list[Any] = [item async for item in aiter(iterable)]
-            items.sort(reverse=reverse)
-            return items
+        # Decide by type, not by catching TypeError: a TypeError raised by the
+        # iterable or by comparing its items must reach the caller.
+        if not isinstance(iterable, AsyncIterable):
+            return _sync_builtins.sorted(iterable, reverse=reverse)
+        items: _sync_builtins.list[Any] = [item async for item in aiter(iterable)]
+        items.sort(reverse=reverse)
+        return items
     else:
         async_key = _awaitify(key)
         keyed_items = [(await async_key(item), item) async for item in aiter(iterable)]
